@@ -6,6 +6,7 @@
 pub mod props;
 pub mod reference;
 pub mod runner;
+pub mod simnet;
 pub mod tape;
 
 pub use runner::{Ctx, Failure, PropDef, Tier, Verdict};
